@@ -310,6 +310,101 @@ Fixpoint list_bytes_eqb (a b : list bytes) : bool :=
   | _, _ => false
   end.
 
+(* ====================================================================================
+   The hide list (DESIGN §4 C03 "HIDE"): internal locations in listings, archives and the
+   static file server's own lookups
+   ==================================================================================== *)
+
+(* staticfiles.FileServer.IsHidden: the file is the one some hide-list entry opens
+   (http.Dir.Open cleans "/" ++ entry; identity of files = canonical name: no links) *)
+Definition is_hidden (hide : list bytes) (f : bytes) : bool :=
+  existsb (fun h => beq (resolved h) f) hide.
+
+(* a directory tree as it is on disk *)
+Inductive node := Node (name : bytes) (is_dir : bool) (kids : list node).
+Definition node_name (n : node) : bytes := match n with Node a _ _ => a end.
+Definition child_path (d name : bytes) : bytes := dir_slash d ++ name.
+
+(* browse.loadDirectoryContents: every entry of the directory except the hidden ones *)
+Definition listing (hide : list bytes) (d : bytes) (kids : list node) : list bytes :=
+  filter (fun f => negb (is_hidden hide f)) (map (fun k => child_path d (node_name k)) kids).
+
+(* browse.ServeArchive's walk below directory d: a hidden file is left out, a hidden directory
+   is skipped with everything below it (filepath.SkipDir).  Each member is returned with its
+   chain: itself and the directories between the archived directory and it. *)
+Fixpoint walk (hide : list bytes) (chain : list bytes) (d : bytes) (n : node) {struct n}
+  : list (bytes * list bytes) :=
+  match n with
+  | Node name isd kids =>
+      let f := child_path d name in
+      if is_hidden hide f then []
+      else (f, f :: chain) :: (if isd then flat_map (walk hide (f :: chain) f) kids else [])
+  end.
+Definition archive (hide : list bytes) (d : bytes) (kids : list node) : list (bytes * list bytes) :=
+  flat_map (walk hide [] d) kids.
+
+(* ---- when the hide lists are taken ----
+   The directives' setup functions run in the order of plugin.go's list.  internal's setup appends
+   its paths to the site's HiddenFiles; browse's setup COPIES HiddenFiles into its own file
+   server; httpserver.NewServer copies HiddenFiles into the default file server after all setups
+   and before any middleware constructor runs. *)
+Record hide_site := { hs_initial : list bytes;             (* HiddenFiles before the setups (the Casketfile) *)
+                      hs_internal : option (list bytes);   (* `internal` configured, with these paths *)
+                      hs_browse : bool }.                  (* `browse` configured *)
+Record setup_state := { ss_hidden : list bytes; ss_browse : option (list bytes) }.
+Definition setup_step (s : hide_site) (st : setup_state) (name : bytes) : setup_state :=
+  if beq name (bs "internal"%string) then
+    match hs_internal s with
+    | Some ps => {| ss_hidden := ss_hidden st ++ ps; ss_browse := ss_browse st |}
+    | None => st
+    end
+  else if beq name (bs "browse"%string) then
+    (if hs_browse s then {| ss_hidden := ss_hidden st; ss_browse := Some (ss_hidden st) |} else st)
+  else st.
+Definition run_setups (dirs : list bytes) (s : hide_site) : setup_state :=
+  fold_left (setup_step s) dirs {| ss_hidden := hs_initial s; ss_browse := None |}.
+Definition browse_hide (s : hide_site) : option (list bytes) := ss_browse (run_setups gen_directives s).
+Definition fs_hide (s : hide_site) : list bytes := ss_hidden (run_setups gen_directives s).
+
+(* ---- staticfiles.FileServer.serveFile: which file's bytes are sent for URL path p ----
+   files/dirs: canonical names of the regular files / directories under the root; idx: index page
+   names; exts: the extensions of the precompressed encodings the client accepts, in the server's
+   priority order. *)
+Fixpoint first_index (files dirs : list bytes) (c : bytes) (idx : list bytes) : option bytes :=
+  match idx with
+  | [] => None
+  | i :: r => let f := child_path c i in
+              if memb f files || memb f dirs then Some f else first_index files dirs c r
+  end.
+Fixpoint pick_sibling (hide files : list bytes) (f : bytes) (exts : list bytes) : bytes :=
+  match exts with
+  | [] => f
+  | e :: r => if memb (f ++ e) files && negb (is_hidden hide (f ++ e)) then f ++ e
+              else pick_sibling hide files f r
+  end.
+Definition fs_serve (hide idx exts files dirs : list bytes) (p : bytes) : option bytes :=
+  let c := resolved p in
+  let target := if memb c dirs then (if ends_with_slash p then first_index files dirs c idx else None)
+                else if memb c files then (if ends_with_slash p then None else Some c)
+                else None in
+  match target with
+  | Some f => if memb f dirs || is_hidden hide f then None else Some (pick_sibling hide files f exts)
+  | None => None
+  end.
+
+(* a canonical name is the location h or lies below it (whole segments) *)
+Definition at_or_below (f h : bytes) : bool := beq f h || has_prefix f (dir_slash h).
+Definition outside_internal (ipaths : list bytes) (f : bytes) : bool :=
+  negb (existsb (fun ip => at_or_below f (resolved ip)) ipaths).
+Definition same_set (a b : list bytes) : bool :=
+  forallb (fun x => memb x b) a && forallb (fun x => memb x a) b.
+
+(* a tree used by the non-vacuity examples: /int/h.txt, /pub/a.txt, /top.txt *)
+Definition example_tree : list node :=
+  [ Node (bs "int"%string) true [Node (bs "h.txt"%string) false []];
+    Node (bs "pub"%string) true [Node (bs "a.txt"%string) false []];
+    Node (bs "top.txt"%string) false [] ].
+
 (* ---- cases ---- *)
 Inductive case :=
 | CMatches (cs : bool) (p base : bytes) (obs : bool)
@@ -330,7 +425,14 @@ Inductive case :=
          (ipaths : list bytes) (script : list (bytes * bytes)) (xreq : bytes)
          (obs_status : N) (obs_touched : list bytes)
 (* source scan: files under caskethttp/ assigning r.URL.Path *)
-| CAssigners (obs : list bytes).
+| CAssigners (obs : list bytes)
+(* full site with `internal ipaths` and browse: the entries a listing (HTML or JSON) of the
+   directory named by URL path p shows / the members of its archive, as names relative to that
+   directory; kids = what is on disk below it *)
+| CHide (ipaths : list bytes) (p : bytes) (is_archive : bool) (kids : list node) (obs : list bytes)
+(* full site with `internal ipaths` and no content handler but the static file server: canonical
+   names of the files whose planted tokens the decoded answer to GET p contains *)
+| CServe (ipaths idx exts files dirs : list bytes) (p : bytes) (obs : list bytes).
 
 Definition res_violation (cs opt : bool) (rules : list rule) (ipaths : list bytes) (f : bytes) : bool :=
   (negb opt && existsb (protects_res cs f) rules &&
@@ -377,4 +479,19 @@ Definition judge (c : case) : N :=
                                    | [] => false end in
       verdict ((o_status r =? st) && list_bytes_eqb (o_touched r) tr) spec
   | CAssigners obs => verdict (list_bytes_eqb obs path_assigners) (list_bytes_eqb obs path_assigners)
+  | CHide ipaths p is_arc kids obs =>
+      let s := {| hs_initial := []; hs_internal := Some ipaths; hs_browse := true |} in
+      let d := resolved p in
+      let full := map (child_path d) obs in
+      let spec := forallb (outside_internal ipaths) full in
+      match browse_hide s with
+      | Some h => let exp := if is_arc then map fst (archive h d kids) else listing h d kids in
+                  verdict (same_set exp full) spec
+      | None => verdict false spec
+      end
+  | CServe ipaths idx exts files dirs p obs =>
+      let s := {| hs_initial := []; hs_internal := Some ipaths; hs_browse := false |} in
+      let exp := if internal_blocks false p ipaths then []
+                 else match fs_serve (fs_hide s) idx exts files dirs p with Some f => [f] | None => [] end in
+      verdict (same_set exp obs) (forallb (outside_internal ipaths) obs)
   end.
